@@ -332,6 +332,32 @@ def c03_order(m, run):
         tm_.add((p, n, ranks, u), run1(m, 'helpers.find_multiplicity', [Ord(u), kv], {}, postm))
     for t in (tl, tb, tm_):
         finish(t, 'geomdl/helpers.py')
+    # the list variant returns, for every parameter of a list, the span the single-parameter search returns (sorted lists with
+    # parameters on knots included: a span found for one parameter is not a valid answer for the next one on the closing knot)
+    from .skel import FnRef
+    tls = Tally(run, 'OT1.span-is-the-half-open-interval', 'helpers.find_spans', tl.describe + ' (all positions of one knot vector passed as one sorted list, both search functions)')
+    for p in range(1, P + 1):
+        for n in range(p + 1, p + N + 1):
+            for clamped in (True, False):
+                for ranks in knot_order_types(p, n, clamped):
+                    lo, hi = ranks[p], ranks[n]
+                    dist = sorted({r for r in ranks if lo <= r <= hi})
+                    pos = []
+                    for a, b in zip(dist, dist[1:]):
+                        pos += [a, (a + b) / 2.0]
+                    pos.append(hi)
+                    want = []
+                    for u in pos:
+                        if u == ranks[n]:
+                            want.append(max(i for i in range(p, n) if ranks[i] < ranks[i + 1]))
+                        else:
+                            want.append([i for i in range(p, n) if ranks[i] <= u < ranks[i + 1]][0])
+                    for fkey in ('helpers.find_span_linear', 'helpers.find_span_binsearch'):
+                        def posts(sk, out, want=want):
+                            if list(out) != want:
+                                raise Violation('OT1', 'find_spans returned %r for the sorted parameters, the half-open intervals are %r' % (out, want))
+                        tls.add((p, n, tuple(ranks), fkey), run1(m, 'helpers.find_spans', [p, [Ord(r) for r in ranks], n, [Ord(u) for u in pos], FnRef(m.func(fkey))], {}, posts))
+    finish(tls, 'geomdl/helpers.py')
     run.assume('order-type abstraction: distinct knots / parameters differ by more than every tolerance they are compared with (1e-5 snap of find_span_binsearch, 1e-7 of find_multiplicity)')
     # knotvector.check over every rank sequence (including decreasing ones and wrong lengths)
     tc = Tally(run, 'OT3.check-accepts-exactly-valid', 'knotvector.check', 'degree 1..2 x n = p+1..p+2 x every sequence over 3 ranks of length n+p, n+p+1, n+p+2')
